@@ -954,6 +954,18 @@ fn run_inner(prog: &Arc<Program>)
             }
             Origin::EntityWorld(0) => { app.add_entity_reactor(T0(i as u8)); }
             Origin::EntityWorld(_) => { app.add_entity_reactor(T1(i as u8)); }
+            Origin::App =>
+            {
+                let tmp = H::for_resolve(prog.clone(), slot_ents.clone());
+                let trigs = prog.app_reactors.iter().find(|(x, _)| *x as usize == i).map(|(_, t)| t.clone()).unwrap_or_default();
+                let b = tmp.bundle(&trigs);
+                // every instance is the same closure type built at one source location: registrations of the same function
+                match def.flavour
+                {
+                    Flavour::FallibleDrop => { app.add_reactor(b, plain_actor::<DropErr>(i as u8)); }
+                    _ => { app.add_reactor(b, plain_actor::<()>(i as u8)); }
+                }
+            }
             _ => {}
         }
     }
